@@ -17,7 +17,8 @@
 EXTENDS Integers, Sequences, FiniteSets, TLC, Json
 
 CONSTANTS MaxLen,       \* chains of 1..MaxLen elements
-          Vocabulary    \* elements to build chains from
+          Vocabulary,   \* elements to build chains from
+          Contexts      \* incoming contexts (InitsAll, or a subset for the quick tier)
 
 None == [has |-> FALSE, v |-> <<>>]
 Some(s) == [has |-> TRUE, v |-> s]
@@ -48,12 +49,20 @@ SmallElements == {El(TRUE, FALSE, FALSE, FALSE, FALSE, ow, nk) : ow \in BOOLEAN,
 RECURSIVE Chains(_)
 Chains(m) == IF m = 0 THEN {<<>>}
              ELSE LET P == Chains(m - 1) IN P \cup {Append(c, e) : c \in {x \in P : Len(x) = m - 1}, e \in Vocabulary}
-\* initial context: is "var" there; is there already a file name; are there pending affixes
-\* ax0: pending affixes in the incoming context: none, some text, or present but EMPTY strings
-Inits == [var : {"none", "run", "static", "both"}, fn0 : BOOLEAN, ax0 : {"none", "some", "empty"}]
-Affix0(c0, letter) == CASE c0.ax0 = "none" -> None [] c0.ax0 = "some" -> Some(<<<<letter, 0>>>>) [] c0.ax0 = "empty" -> Some(<<>>)
-Out0(c0) == [filename |-> IF c0.fn0 THEN Some(<<<<"F", 0>>>>) ELSE None, dirname |-> None, fileext |-> None,
-             prefix |-> Affix0(c0, "P"), suffix |-> Affix0(c0, "S")]
+\* initial context: is "var" there; names that exist already; pending affixes.
+\* fn0: context.output.filename, dx0: context.output.dirname and fileext, ax0: context.output.prefix and suffix
+\* of the incoming value, each "none" (key absent), "some" (a text) or "empty" (the key is there and holds the
+\* EMPTY string: dirname "" = the top of the output directory, fileext "" = a file without extension are names
+\* like any other - "an existing name" is a key that is present, not a value that is true)
+Kinds == {"none", "some", "empty"}
+InitsAll == [var : {"none", "run", "static", "both"}, fn0 : Kinds, dx0 : Kinds, ax0 : Kinds]
+\* quick: the names (some / empty / absent, in every combination with the affixes) with a run-time "var";
+\* a name that exists in the other contexts
+InitsQuick == {c \in InitsAll : c.var = "run" \/ (c.fn0 # "empty" /\ c.dx0 = "none")
+                                 \/ (c.var = "none" /\ c.dx0 # "none" /\ c.ax0 = "none")}
+Given0(kind, letter) == CASE kind = "none" -> None [] kind = "some" -> Some(<<<<letter, 0>>>>) [] kind = "empty" -> Some(<<>>)
+Out0(c0) == [filename |-> Given0(c0.fn0, "F"), dirname |-> Given0(c0.dx0, "D"), fileext |-> Given0(c0.dx0, "E"),
+             prefix |-> Given0(c0.ax0, "P"), suffix |-> Given0(c0.ax0, "S")]
 
 (***************************************************************************)
 (* Declarative: one element, from the docstring of __call__.               *)
@@ -82,7 +91,7 @@ ChainSem(ch, i, o, c) == IF i > Len(ch) THEN o ELSE ChainSem(ch, i + 1, Apply(ch
 (***************************************************************************)
 VARIABLES chain, c0, i, k, out, before
 vars == <<chain, c0, i, k, out, before>>
-Init == /\ chain \in (Chains(MaxLen) \ {<<>>}) /\ c0 \in Inits
+Init == /\ chain \in (Chains(MaxLen) \ {<<>>}) /\ c0 \in Contexts
         /\ i = 1 /\ k = 1 /\ out = Out0(c0) /\ before = Out0(c0)
 Step == /\ i <= Len(chain)
         /\ LET el == chain[i]  key == Keys[k]
@@ -124,6 +133,11 @@ Occ(s, x) == Cardinality({j \in 1..Len(s) : s[j] = x})
 \* (the value of "var" may legitimately occur in several arguments)
 Once(s) == \A j \in 1..Len(s) : s[j][1] \notin {"V", "SV"} => Occ(s, s[j]) = 1
 AffixOnce == out.filename.has => Once(out.filename.v)
+\* the names the value came with (texts or empty strings: present is not the same as true) are still there at
+\* the end of a chain without overwrite
+Came(key) == Out0(c0)[key]
+IncomingKept == (Done /\ \A n \in 1..Len(chain) : ~chain[n].ow) =>
+                   \A key \in {"filename", "dirname", "fileext"} : Came(key).has => out[key] = Came(key)
 AffixConsumed == [][(i <= Len(chain) /\ k = 3 /\ out'.filename # out.filename) =>
                       /\ out'.filename.v = out.prefix.v \o ArgV(chain[i], i, "filename", VarTok(c0)) \o out.suffix.v
                       /\ (out.prefix.v # <<>> => ~out'.prefix.has) /\ (out.suffix.v # <<>> => ~out'.suffix.has)]_vars
